@@ -142,4 +142,46 @@ Section Purge.
     clear - R. induction ks as [|k ks IH]; [reflexivity|]. cbn [fetch_keys].
     rewrite (R k (or_introl eq_refl)). cbn. apply IH. intros k' I. apply R. right. exact I.
   Qed.
+
+  (* C16, "never disturbs other handlers' records ... or user data", for the purge: whatever is on the object and whatever
+     is pending in the cycle's shared patch, purging one record (a) leaves what is pending for every annotation that is not
+     one of this record's own keys exactly as it was - a record another handler stored earlier in the same cycle, a user's
+     annotation - and (b) where nothing is pending for such an annotation, an RFC 7386 server leaves it as it is on the
+     object; (c) every top-level field other than metadata reads as before. *)
+  Lemma merge_empty_ann body k :
+    resolve (merge body (JObj [])) (ann_path k)
+    = match resolve body ["metadata"; "annotations"] with Some (JObj a) => lookup k a | _ => None end.
+  Proof.
+    rewrite merge_obj. unfold ann_path. cbn [merge_fields].
+    destruct body as [| | | | |kvs|]; cbn [obj_of resolve lookup]; try reflexivity.
+    destruct (lookup "metadata" kvs) as [m|]; cbn [resolve]; [|reflexivity].
+    destruct m as [| | | | |mkv|]; cbn [resolve]; try reflexivity.
+    destruct (lookup "annotations" mkv) as [a|]; cbn [resolve]; [|reflexivity].
+    destruct a as [| | | | |av|]; cbn [resolve]; try reflexivity.
+    destruct (lookup k av); reflexivity.
+  Qed.
+
+  Theorem ann_purge_isolated prefix v1 verbose tk key body p anns patch k' :
+    ann_patch p anns ->
+    ppurge dg (PAnn prefix v1 verbose tk) key body p = Ok patch ->
+    ~ In k' (full_keys dg prefix v1 body key) ->
+    (exists anns', ann_patch patch anns' /\ lookup k' anns' = lookup k' anns)
+    /\ (lookup k' anns = None ->
+        resolve (merge body patch) (ann_path k')
+        = match resolve body ["metadata"; "annotations"] with Some (JObj a) => lookup k' a | _ => None end)
+    /\ (forall f, f <> "metadata" -> lookup f (obj_of (merge body patch)) = lookup f (obj_of body)).
+  Proof.
+    intros A H NI. cbn [ppurge] in H.
+    set (ks := full_keys dg prefix v1 body key) in *.
+    pose proof (purge_keys_shape body ks p anns patch A H) as A'.
+    assert (L : lookup k' (fold_left (purge_anns body) ks anns) = lookup k' anns).
+    { rewrite fold_purge_lookup. destruct (in_dec string_dec k' ks) as [I|_]; [contradiction|reflexivity]. }
+    split; [exists (fold_left (purge_anns body) ks anns); split; [exact A'|exact L]|].
+    split.
+    - intro Ln. rewrite Ln in L. remember (fold_left (purge_anns body) ks anns) as anns' eqn:Ea. clear Ea.
+      destruct A' as [|a'].
+      + apply merge_empty_ann.
+      + unfold pending. apply merge_ann_only_other_ann. exact L.
+    - intros f Nf. apply merge_ann_only_other_top; [exact (ann_patch_ann_only _ _ A')|exact Nf].
+  Qed.
 End Purge.
